@@ -6,4 +6,4 @@ KNOWN = {"F3": tmpl_python.known_f3, "F5": tmpl_jinja.known_f5}
 
 def units(tier, seed):
     return (tmpl_placeholder.units_for("C07", tier) + tmpl_python.units_for("C07", tier)
-            + tmpl_python.process_units("C07", tier) + tmpl_jinja.units_for("C07", tier))
+            + tmpl_python.process_units("C07", tier) + tmpl_jinja.units_for("C07", tier) + tmpl_jinja.variant_units("C07", tier))
